@@ -16,3 +16,18 @@ Theorem C15_machine_is_the_windowed_preorder :
   forall ls mind maxd root, walk mind maxd ls root = walk_spec mind maxd ls root.
 Proof. exact walk_refines. Qed.
 Print Assumptions C15_machine_is_the_windowed_preorder.
+
+From WaxProofs Require Import GlobWalkFacts.
+
+(* glob walks with an invariant prefix: the walk starts [pivot] components below the directory given and the window is
+   translated by the model itself (split_components, glob_walk_root, window_at_pivot are part of the model, not of the
+   harness); every entry produced has its depth - measured from the directory given - inside the configured window; the
+   upper bound holds when the window reaches the pivot (below it the starting directory is still yielded: the known class
+   max_below_prefix) *)
+Theorem C15_glob_walk_in_window : forall root prefix_text mind maxd progs complete rest e t s,
+  In (REntry e t s) (glob_walk root prefix_text mind maxd progs complete rest) ->
+  let pivot := length (split_components prefix_text) in
+  (mind <= pivot + length (e_path e))%nat /\
+  match maxd with Some m => (pivot <= m)%nat -> (pivot + length (e_path e) <= m)%nat | None => True end.
+Proof. exact glob_walk_in_window. Qed.
+Print Assumptions C15_glob_walk_in_window.
